@@ -452,7 +452,32 @@ def run(cx, tier='quick'):
     return rep
 
 
-def check_dereference_helper(cx, rep):
+def dereference_loop_form(f):
+    """`let mut t = ty; while let Type::Reference(r) = t { t = r.elem.as_ref(); } t` — the iterative spelling of "strip every leading &" """
+    st = f.block.get('stmts', [])
+    params = [p_[0] for p_ in f.params()]
+    if len(st) != 3 or len(params) != 1:
+        return False
+    a, w, t = st
+    if a.get('k') != 'Local' or a['pat'].get('k') != 'Ident' or not a['pat'].get('mut') or not isinstance(a.get('init'), dict) \
+            or a['init'].get('k') != 'Path' or a['init']['path']['s'] != params[0]:
+        return False
+    v = a['pat']['name']
+    if w.get('k') != 'Expr' or w['expr'].get('k') != 'While' or t.get('k') != 'Expr' or t.get('semi') or t['expr'].get('k') != 'Path' or t['expr']['path']['s'] != v:
+        return False
+    c = w['expr']['cond']
+    if c.get('k') != 'Let' or c['pat'].get('k') != 'TupleStruct' or c['pat']['path']['s'] not in ('Type::Reference', 'syn::Type::Reference') \
+            or len(c['pat']['elems']) != 1 or c['pat']['elems'][0].get('k') != 'Ident' or es(c['expr']).replace('&', '').replace('*', '') != v:
+        return False
+    r = c['pat']['elems'][0]['name']
+    body = w['expr']['body'].get('stmts', [])
+    if len(body) != 1 or body[0].get('k') != 'Expr' or body[0]['expr'].get('k') != 'Assign':
+        return False
+    asg = body[0]['expr']
+    return es(asg['l_']) == v and es(asg['r_']).replace(' ', '') in ('%s.elem.as_ref()' % r, '&%s.elem' % r, '&*%s.elem' % r)
+
+
+def check_dereference_helper(cx, rep, rule='SUM-DEREF'):
     """common::type::dereference / dereference_changed strip all leading references"""
     for name in ('dereference', 'dereference_changed'):
         fs = [f for f in cx.crate.fns if f.qname.endswith('common::type::' + name)]
@@ -467,12 +492,17 @@ def check_dereference_helper(cx, rep):
         def rec(x):
             return isinstance(x, tuple) and len(x) == 3 and x[0] == 'call' and x[1] in DEREF and x[2] == inner
         ok = isinstance(t, tuple) and t[0] == 'iflet' and t[1] in ('Type::Reference(_)', 'syn::Type::Reference(_)') and t[2] == P(0)
+        if not ok and name == 'dereference':
+            ok_loop = dereference_loop_form(f)
+            if ok_loop:
+                rep.ok(rule, f.qname + '|strips all references', {'helper': f.qname, 'form': 'loop'})
+                continue
         if ok and name == 'dereference':
             ok = rec(t[3]) and t[4] == P(0)
         elif ok:
             ok = (isinstance(t[3], tuple) and t[3][0] == 'tuple' and len(t[3]) == 3 and rec(t[3][1]) and t[3][2] == ('lit', 'Bool', True)
                   and t[4] == ('tuple', P(0), ('lit', 'Bool', False)))
         if ok:
-            rep.ok('SUM-DEREF', f.qname + '|strips all references', {'helper': f.qname})
+            rep.ok(rule, f.qname + '|strips all references', {'helper': f.qname})
         else:
-            rep.bad('SUM-DEREF', f.qname, 'helper-shape', '`%s` no longer is "strip every leading & and report whether one was stripped"' % name, f.file, f.line)
+            rep.bad(rule, f.qname, 'helper-shape', '`%s` no longer is "strip every leading & and report whether one was stripped"' % name, f.file, f.line)
